@@ -100,6 +100,11 @@ def classify(exc):
     return 'base'
 
 
+def _address_taint(node, v, rec):
+    if type(v) is str and ' at 0x' in v:
+        rec.tainted = True
+
+
 class Out:
     __slots__ = ('kind', 'value', 'exc', 'rec', 'ops_evaluated')
 
@@ -110,6 +115,8 @@ class Out:
         self.rec = rec
 
     def brief(self):
+        if self.rec is not None and self.rec.tainted:
+            return [self.kind, 'memory-address text involved']       # keeps event logs independent of the allocator
         if self.kind == 'value':
             return ['value', canon.canon(self.value, monitors.M.fn_names)]
         return [self.kind, type(self.exc).__name__, canon.norm_msg(str(self.exc))[:200]]
@@ -124,6 +131,7 @@ class Out:
 def real_eval(parser, src, names, budget=10 ** 6, rec=None, default_budget=False, ast_names=None, audit=False):
     """One public eval call under a monitor record. Never lets an Exception escape; SimKill does (by design)."""
     rec = rec or monitors.Rec()
+    rec.value_hooks = tuple(rec.value_hooks) + (_address_taint,)
     kw = {}
     if not default_budget:
         kw['max_ops_evaluated'] = budget
